@@ -13,6 +13,7 @@ This private submodule is *not* intended for importation by downstream callers.
 
 # ....................{ IMPORTS                            }....................
 from beartype._check.cls.hint.hintsane import (
+    HINT_IGNORABLE,
     HINT_SANE_IGNORABLE,
     HINT_SANE_RECURSIVE,
     HintOrSane,
@@ -288,6 +289,18 @@ def reduce_hint_pep484604_union(
         #
         # If metadata encapsulates the reduction of this child hint...
         elif isinstance(hint_child_sane, HintSane):
+            # If this child hint reduced to unique metadata encapsulating the
+            # "HINT_IGNORABLE" singleton (e.g., a PEP 695-compliant type alias
+            # of an ignorable hint like "type Alias = Any", whose metadata
+            # records that alias as recursable), this child hint is ignorable.
+            # As above, this entire union is thus ignorable as well. Note that
+            # the "is_hint_ignorable_preserved" parameter passed above prevents
+            # reduce_hint_child() from reducing this metadata to the
+            # "HINT_SANE_IGNORABLE" singleton detected above.
+            if hint_child_sane.hint is HINT_IGNORABLE:
+                return HINT_SANE_IGNORABLE
+            # Else, this child hint is unignorable.
+
             # If either...
             if (
                 # This union has no parent and is thus a root hint *OR*...
